@@ -202,8 +202,8 @@ package contractcourt
 //@ func (c *ChannelArbitrator) relaunchResolvers
 //@   props C13
 //@   loop * havoc
-//@   loop 1 invariant (commitSet != nil && commitSet.ConfCommitKey.isSome) ==>
-//@        confirmedHTLCs == commitSet.HtlcSets[commitSet.ConfCommitKey.some]
-//@   site mapupdate htlcMap: assert arg(key).Hash == retn(FetchContractResolutions, 0).CommitHash
+//@   site mapupdate htlcMap: assert arg(key).Hash == retn(FetchContractResolutions, 0).CommitHash &&
+//@        ((commitSet != nil && commitSet.ConfCommitKey.isSome) ==>
+//@          confirmedHTLCs == commitSet.HtlcSets[commitSet.ConfCommitKey.some])
 //@   site call FetchUnresolvedContracts: assert true
 //@   site call Supplement: assert retn(FetchContractResolutions, 1) == nil && retn(FetchUnresolvedContracts, 1) == nil
